@@ -1,15 +1,6 @@
 //! mv — the verification engine for mel-project/melstf (property-based testing / fuzzing family).
-mod alloc;
-mod evidence;
-mod mon;
-mod plan;
-mod refstf;
-mod refvm;
-mod runner;
-mod util;
-mod vmgen;
-mod world;
 
+use mv::{alloc, evidence, mon, runner, util};
 use std::collections::BTreeMap;
 use std::time::Instant;
 
@@ -88,6 +79,9 @@ fn main() {
                     if let Ok(b) = std::fs::read(&f) {
                         if let Ok(v) = serde_json::from_slice::<serde_json::Value>(&b) {
                             let case = v["case"].clone();
+                            if case.get("abort").is_some() {
+                                continue;
+                            }
                             let r = std::thread::Builder::new()
                                 .name("s201".into())
                                 .stack_size(256 << 20)
